@@ -315,11 +315,12 @@ Definition flagged (w : world) (r : runst) : bool := existsb (flagged_input w r)
 
 (* `flagging` = whether execute_job performs that step (generated: exec_flags_inputs_not_final);
    do_end_gen false is the code before fix a02f82b, kept to name a regression. *)
-Definition do_end_gen (flagging : bool) (w : world) (t : N) (cmd_ok : bool) : world * result :=
+(* `changed` = the inputs whose post-run hash differs from the recorded one (new_inp_hashes of
+   _compute_full_step_hash); empty when the hash computation was cancelled (model/FreshSkip.v). *)
+Definition do_end_core (flagging : bool) (w : world) (t : N) (cmd_ok : bool) (changed : list N) : world * result :=
   match c_run w with
   | None => (w, RNone)
   | Some r =>
-      let changed := changed_inputs w in
       let unexpected := nonempty changed in
       let hash0 := negb unexpected in                     (* step_hash is None iff inp messages *)
       let success0 := r_success r && cmd_ok && negb unexpected in
@@ -337,6 +338,9 @@ Definition do_end_gen (flagging : bool) (w : world) (t : N) (cmd_ok : bool) : wo
       let w := set_draining w (draining w || report_drains_gen tag (keep_going w) || unexpected) in
       (set_run w None, REnd)
   end.
+
+Definition do_end_gen (flagging : bool) (w : world) (t : N) (cmd_ok : bool) : world * result :=
+  do_end_core flagging w t cmd_ok (changed_inputs w).
 
 Definition do_end := do_end_gen exec_flags_inputs_not_final.
 
